@@ -58,6 +58,7 @@ type aWorld struct {
 	recKeys  []*workload.Key
 
 	suffix    string
+	createM   *refmodel.Op
 	createReq []byte
 	createSD  *model.SuffixDataModel
 
@@ -694,6 +695,7 @@ func (w *aWorld) anchorCreate(dup bool) {
 
 		w.suffix = parsed.UniqueSuffix
 		w.createReq = req
+		w.createM = m
 		w.createSD = parsed.SuffixData
 		w.stampNoAdvance(m)
 		w.anchor(req, m, true, "create")
@@ -702,7 +704,7 @@ func (w *aWorld) anchorCreate(dup bool) {
 	}
 
 	// a further create for the same DID: same suffix data, same or different delta
-	first := w.ops[0].M
+	first := w.createM // the descriptor of the original create request (w.ops[0] may be something else by now)
 	m := &refmodel.Op{Type: refmodel.Create, Parses: true, NextRecovery: first.NextRecovery, Origin: first.Origin, Label: "create/dup"}
 	req := w.createReq
 
@@ -737,7 +739,7 @@ func (w *aWorld) unpublishedCreate() {
 		panic(err)
 	}
 
-	w.suffix, w.createReq, w.createSD = parsed.UniqueSuffix, req, parsed.SuffixData
+	w.suffix, w.createReq, w.createSD, w.createM = parsed.UniqueSuffix, req, parsed.SuffixData, m
 
 	m.ID = w.nextID
 	w.nextID++
